@@ -178,6 +178,36 @@ def pubcomp_origin(F, R):
                 R.ob('C03.pubcomp-origin', '%s|control|PublishComplete-in-PublishRelease-arm' % d.name, bi in reg, 'PUBCOMP built for a control answer other than PublishRelease', b.loc(bi))
 
 
+def drop_guard(F, R):
+    """After the connection was closed a server still hands a PUBLISH to the handler when its QoS is not above
+    the configured handle_qos_after_disconnect level (documented: QoS larger than the level is not
+    guaranteed): the silent-drop guard compares with strictly-greater, in both server dispatchers."""
+    n = 0
+    for ver in ('v3', 'v5'):
+        cl = [b for p_, b in F.bodies.items() if re.search(r'^<%s::dispatcher::Dispatcher<T, C, E> as ntex_service::Service<%s::codec::Decoded>>::call::\{closure#0\}::\{closure#\d+\}$' % (ver, ver), p_)
+              and any('PartialOrd' in (callee_name(t) or '') for _, t in b.calls()) and b.argc == 2 and b.local_ty(2) == 'types::QoS']
+        if len(cl) != 1:
+            R.ob('C03.once', '%s-server|publish-after-disconnect|guard-closure' % ver, False, 'found %d candidate closures' % len(cl))
+            continue
+        b = cl[0]
+        n += 1
+        cmpc = [(bi, t) for bi, t in b.calls() if 'PartialOrd' in (callee_name(t) or '')]
+        ok = False
+        why = 'more than one comparison'
+        if len(cmpc) == 1:
+            bi, t = cmpc[0]
+            op = (callee_name(t) or '').split('::')[-1]
+            a0 = Origin(b).of_operand(t['args'][0])
+            a1 = Origin(b).of_operand(t['args'][1])
+            lvl0 = any(l[0] == 'arg' and l[1] == 2 for l in a0)
+            lvl1 = any(l[0] == 'arg' and l[1] == 2 for l in a1)
+            # qos > level   or   level < qos
+            ok = (op == 'gt' and lvl1 and not lvl0) or (op == 'lt' and lvl0 and not lvl1)
+            why = 'the guard drops a PUBLISH when `qos %s level` (%s): a message whose QoS equals the configured level is silently dropped after disconnect, never handled and never acknowledged' % (op, 'level first' if lvl0 else 'qos first')
+        R.ob('C03.once', '%s-server|publish-after-disconnect|dropped-only-when-qos>level' % ver, ok, why, b.loc(0))
+    R.floor('C03.once', 'publish-after-disconnect guards', n, 2)
+
+
 def ack_origin(F, R, d):
     """PUBACK / PUBREC for an inbound PUBLISH are constructed only in publish_fn (i.e. after the handler);
     the only other construction allowed in a dispatcher body is the v5 negative acknowledgement on the
@@ -254,6 +284,7 @@ def message_intact(F, R, d):
 
 
 def run(F, R):
+    drop_guard(F, R)
     for d in all_dispatchers(F):
         publish_fn_rules(F, R, d)
         ack_origin(F, R, d)
